@@ -5,6 +5,8 @@
 (*                       call of the mapped method with id 0 and no params; the answer is unwrapped on the way back         *)
 (*    HostFilter      (server/src/middleware/http/host_filter.rs)        - 403 unless the authority is allow-listed,        *)
 (*                       400 when the request names none                                                                    *)
+(*    Dispatch        (server/src/server.rs:1042-1148)                   - by the upgrade headers and the server's mode     *)
+(*                       (both / http_only / ws_only): WebSocket handshake, the HTTP gate below, or 403                    *)
 (*    Gate            (server/src/transport/http.rs)                     - 405 / 415                                       *)
 (*    Rpc             (the service itself)                                                                                  *)
 (* The stack is configured by the application: each of the two layers present or not, in either order.                     *)
@@ -22,6 +24,11 @@ Hosts == {"allowed", "denied", "none"}
 CTs == {"json", "text", "none"}
 Bodies == {"call", "garbage", "none"}
 Layers == {<<>>, <<"proxy">>, <<"filter">>, <<"proxy", "filter">>, <<"filter", "proxy">>}      \* outermost first
+Modes == {"both", "httpOnly", "wsOnly"}
+(* upgrade headers: none; a complete WebSocket handshake; `Connection: upgrade` + `Upgrade: websocket` without a key *)
+Upgrades == {"no", "good", "noKey"}
+Requests == {r \in [method : Methods, path : Paths, host : Hosts, ct : CTs, body : Bodies, upg : Upgrades] :
+                r.upg # "no" => r.body = "none" /\ r.ct = "none"}                   \* a handshake carries no body
 
 (* proxy_get_request.rs:147-148: the lookup is by `uri.path()` - exact, case-sensitive, the query is not part of it *)
 Mapped(p) == IF p \in RegPaths THEN p ELSE IF p = "okQuery" THEN "ok" ELSE "none"
@@ -36,7 +43,8 @@ RpcOf(m) == CASE m \in {"ok", "nullres", "strres"} -> [k |-> "result", code |-> 
               [] m = "missing"    -> [k |-> "error", code |-> -32601, ran |-> FALSE]
               [] m = "sub"        -> [k |-> "error", code |-> -32603, ran |-> FALSE]      \* rpc.rs:115-118
 
-VARIABLES cfg,        \* the layers, outermost first
+VARIABLES mode,       \* what the server serves
+          cfg,        \* the layers, outermost first
           orig,       \* the request as the peer sent it
           req,        \* the request as the next layer sees it
           at,         \* travelling inwards: index of the next layer (Len(cfg)+1 = gate, +2 = rpc); outwards: index of the layer to pass next
@@ -44,36 +52,45 @@ VARIABLES cfg,        \* the layers, outermost first
           proxied,    \* the proxy layer rewrote the request
           ans,        \* the answer so far
           ran         \* handler invocations: sequence of [m, params]
-vars == <<cfg, orig, req, at, dir, proxied, ans, ran>>
+vars == <<mode, cfg, orig, req, at, dir, proxied, ans, ran>>
 
 NoAns == [status |-> 0, k |-> "none", code |-> 0]
-Init == /\ cfg \in Layers
-        /\ orig \in [method : Methods, path : Paths, host : Hosts, ct : CTs, body : Bodies]
+Init == /\ cfg \in Layers /\ mode \in Modes
+        /\ orig \in Requests
         /\ req = orig /\ at = 1 /\ dir = "in" /\ proxied = FALSE /\ ans = NoAns /\ ran = <<>>
 
 Refuse(status) == /\ ans' = [status |-> status, k |-> "text", code |-> 0]
-                  /\ dir' = "out" /\ at' = at - 1 /\ UNCHANGED <<cfg, orig, req, proxied, ran>>
+                  /\ dir' = "out" /\ at' = at - 1 /\ UNCHANGED <<mode, cfg, orig, req, proxied, ran>>
 
 (* response::malformed(): status 400 whose body is a JSON-RPC error envelope (-32700, id null) - the one refusal that is JSON *)
 RefuseMalformed == /\ ans' = [status |-> 400, k |-> "envError", code |-> -32700]
-                   /\ dir' = "out" /\ at' = at - 1 /\ UNCHANGED <<cfg, orig, req, proxied, ran>>
+                   /\ dir' = "out" /\ at' = at - 1 /\ UNCHANGED <<mode, cfg, orig, req, proxied, ran>>
 
 ProxyIn == /\ dir = "in" /\ at <= Len(cfg) /\ cfg[at] = "proxy"
            /\ IF req.method = "GET" /\ Mapped(req.path) # "none"
               THEN /\ req' = [req EXCEPT !.method = "POST", !.ct = "json", !.body = Mapped(req.path), !.path = "root"]
                    /\ proxied' = TRUE
               ELSE UNCHANGED <<req, proxied>>
-           /\ at' = at + 1 /\ UNCHANGED <<cfg, orig, dir, ans, ran>>
+           /\ at' = at + 1 /\ UNCHANGED <<mode, cfg, orig, dir, ans, ran>>
 
 FilterIn == /\ dir = "in" /\ at <= Len(cfg) /\ cfg[at] = "filter"
             /\ CASE req.host = "none"   -> RefuseMalformed             \* host_filter.rs:129-131 -> response::malformed()
                  [] req.host = "denied" -> Refuse(403)
-                 [] OTHER -> at' = at + 1 /\ UNCHANGED <<cfg, orig, req, dir, proxied, ans, ran>>
+                 [] OTHER -> at' = at + 1 /\ UNCHANGED <<mode, cfg, orig, req, dir, proxied, ans, ran>>
 
+(* server.rs:1042-1148.  `is_upgrade_request` looks at the two headers only - not at the method, and the proxy's rewrite      *)
+(* leaves them in place.  A handshake the server accepts is answered 101 (the connection's task then waits for the            *)
+(* transport's upgrade); one it cannot accept is answered by a text with status 200 (`HttpResponse::new`) - as the tree does. *)
+EnableWs == mode # "httpOnly"
+EnableHttp == mode # "wsOnly"
 Gate == /\ dir = "in" /\ at = Len(cfg) + 1
-        /\ IF req.method # "POST" THEN Refuse(405)
+        /\ IF EnableWs /\ req.upg # "no"
+             THEN /\ ans' = IF req.upg = "good" THEN [status |-> 101, k |-> "upgrade", code |-> 0] ELSE [status |-> 200, k |-> "text", code |-> 0]
+                  /\ dir' = "out" /\ at' = at - 1 /\ UNCHANGED <<mode, cfg, orig, req, proxied, ran>>
+           ELSE IF ~(EnableHttp /\ req.upg = "no") THEN Refuse(403)
+           ELSE IF req.method # "POST" THEN Refuse(405)
            ELSE IF req.ct # "json" THEN Refuse(415)
-           ELSE at' = at + 1 /\ UNCHANGED <<cfg, orig, req, dir, proxied, ans, ran>>
+           ELSE at' = at + 1 /\ UNCHANGED <<mode, cfg, orig, req, dir, proxied, ans, ran>>
 
 (* the body is either what the peer sent or the call the proxy put there (a method class of RegPaths) *)
 Rpc == /\ dir = "in" /\ at = Len(cfg) + 2
@@ -83,7 +100,7 @@ Rpc == /\ dir = "in" /\ at = Len(cfg) + 2
             [] OTHER -> LET o == RpcOf(b) IN
                         /\ ans' = [status |-> 200, k |-> IF o.k = "result" THEN "envResult" ELSE "envError", code |-> o.code]
                         /\ ran' = IF o.ran THEN Append(ran, [m |-> b, params |-> "absent"]) ELSE ran
-       /\ dir' = "out" /\ at' = Len(cfg) /\ UNCHANGED <<cfg, orig, req, proxied>>
+       /\ dir' = "out" /\ at' = Len(cfg) /\ UNCHANGED <<mode, cfg, orig, req, proxied>>
 
 (* on the way out only the proxy touches the answer, and only of a request it rewrote (proxy_get_request.rs:172-199): a     *)
 (* member "result" at the top level -> 200 with its value as the whole body; otherwise 500 with the error object, or with   *)
@@ -94,31 +111,33 @@ PassOut == /\ dir = "out" /\ at >= 1
                             [] ans.k = "envError"  -> [status |-> 500, k |-> "bareError", code |-> ans.code]
                             [] OTHER               -> [status |-> 500, k |-> "bareError", code |-> -32603]
               ELSE UNCHANGED ans
-           /\ at' = at - 1 /\ UNCHANGED <<cfg, orig, req, dir, proxied, ran>>
-Deliver == dir = "out" /\ at = 0 /\ dir' = "done" /\ UNCHANGED <<cfg, orig, req, at, proxied, ans, ran>>
+           /\ at' = at - 1 /\ UNCHANGED <<mode, cfg, orig, req, dir, proxied, ran>>
+Deliver == dir = "out" /\ at = 0 /\ dir' = "done" /\ UNCHANGED <<mode, cfg, orig, req, at, proxied, ans, ran>>
 
 Next == ProxyIn \/ FilterIn \/ Gate \/ Rpc \/ PassOut \/ Deliver
 Spec == Init /\ [][Next]_vars
 
 (* ---- what the stack guarantees ---- *)
-TypeOK == /\ cfg \in Layers /\ at \in 0..4 /\ dir \in {"in", "out", "done"} /\ proxied \in BOOLEAN /\ Len(ran) <= 1
+TypeOK == /\ cfg \in Layers /\ mode \in Modes /\ at \in 0..4 /\ dir \in {"in", "out", "done"} /\ proxied \in BOOLEAN /\ Len(ran) <= 1
 (* C19 with the shipped layers: a handler runs only for a request that reached the gate as a JSON POST - which the peer      *)
 (* sent as such, or which is the proxy's rewrite of a GET of a registered path                                              *)
 Inv_OnlyJsonPostReachesRpc ==
-  ran # <<>> => /\ req.method = "POST" /\ req.ct = "json"
+  ran # <<>> => /\ req.method = "POST" /\ req.ct = "json" /\ req.upg = "no"
                 /\ \/ ~proxied /\ orig.method = "POST" /\ orig.ct = "json"
                    \/ proxied /\ orig.method = "GET" /\ Mapped(orig.path) # "none" /\ "proxy" \in {cfg[i] : i \in 1..Len(cfg)}
 (* the proxy calls the mapped method and nothing else, with no params *)
 Inv_ProxyCallsMapped == proxied /\ ran # <<>> => ran = <<[m |-> Mapped(orig.path), params |-> "absent"]>>
 (* a refusal runs nothing; the filter's verdict does not depend on the layer order *)
-Inv_RefusedRunsNothing == dir = "done" /\ ans.status \in {400, 403, 405, 415} => ran = <<>>
+Inv_RefusedRunsNothing == dir = "done" /\ ans.status \in {400, 403, 405, 415, 101} => ran = <<>>
+(* a server that serves one protocol only never runs a handler for a request of the other kind *)
+Inv_ModeRespected == ran # <<>> => EnableHttp /\ req.upg = "no"
 Inv_FilterAlwaysDecides ==
   dir = "done" /\ "filter" \in {cfg[i] : i \in 1..Len(cfg)} /\ orig.host # "allowed" /\ ~proxied
       => ans.status = IF orig.host = "none" THEN 400 ELSE 403
 (* a proxied request is answered bare: 200 + the result value, or 500 + an error object - never an envelope *)
 Inv_ProxiedAnswerIsBare == dir = "done" /\ proxied => ans.k \in {"bareResult", "bareError"} /\ (ans.status = 200) = (ans.k = "bareResult")
-Inv_UnproxiedAnswerUntouched == dir = "done" /\ ~proxied => ans.k \in {"text", "envResult", "envError"} /\ ans.status \in {200, 400, 403, 405, 415}
+Inv_UnproxiedAnswerUntouched == dir = "done" /\ ~proxied => ans.k \in {"text", "envResult", "envError", "upgrade"} /\ ans.status \in {101, 200, 400, 403, 405, 415}
 
 Emit == (EmitCases /\ dir = "done") =>
-          PrintT(<<"REPLAY", ToJson([cfg |-> cfg, req |-> orig, proxied |-> proxied, ans |-> ans, ran |-> ran])>>)
+          PrintT(<<"REPLAY", ToJson([cfg |-> cfg, mode |-> mode, req |-> orig, proxied |-> proxied, ans |-> ans, ran |-> ran])>>)
 =============================================================================
